@@ -317,6 +317,24 @@ def generate(tier, rng):
         for k in range(4, len(p)):
             b.add(p[:k], None, None, tcp=k % 2 == 0)
     yield from b.scripts(per=200)
+    # several messages on one flow: each is parsed by a fresh dissector of the protocol the flow is bound to
+    b2 = Batch("multi-message-flows")
+    n1, rq1 = mk1(rng, 0x72, smb1_neg_body([D_NTLM]), dialects=[D_NTLM])
+    s1, rs1 = mk1(rng, 0x73, smb1_setup_body(blob(20)))
+    n2, rq2 = mk2(rng, 0, smb2_neg_body([0x0202, 0x0311]), dialects=[0x0202, 0x0311])
+    s2, rs2 = mk2(rng, 1, smb2_setup_body(blob(20)))
+    keepalive = b"\x85\x00\x00\x00"
+    flows = [[n1, s1], [n1, keepalive, s1], [n2, s2], [n2, keepalive, s2], [n2, keepalive, keepalive, s2, s2], [n1, b"junk", s1],
+             [n1, n2], [n2, n1], [s2, n2], [n1, b"", s1]]
+    sportm = 7800
+    for i, segs in enumerate(flows):
+        for v6 in (False, True):
+            s_, d_ = gens.addr_pair(v6)
+            sportm += 1
+            fl = gens.handshake(b2.cfg.key, s_, d_, sportm, 445, segs)
+            b2.tcp.append(fl)
+            ORACLE[fl[1]] = ({n1: rq1, s1: rs1, n2: rq2, s2: rs2}[segs[0]], "answer", True)
+    yield from b2.scripts()
     # G. NetBIOS header bytes
     b = Batch("nbt-header")
     for typ, fl, ln in ((0, 0, None), (0, 1, None), (0x81, 0, None), (0, 0, 0), (0, 0, 0xffff), (0x85, 0, 4)):
